@@ -192,6 +192,13 @@ def run_property(pid, mod, tier, seed, verbose=False):
     cov["rule"] = rule
     cov["known_findings_reported"] = known_lines
     cov["abstraction_guard"] = guard_note
+    from . import harness as _H
+    _ps = _H.pristine_pkg_state()
+    cov["package_state"] = ("%d module-level / class-level data items and mutable default arguments of the package are "
+                            "owned by each world (installed before, captured after every step, part of the canonical "
+                            "key); mutable ones on this tree: %s"
+                            % (len(_ps), ", ".join(sorted(".".join(k[1:]) for k, v in _ps.items()
+                                                          if isinstance(v, (list, dict, set)) or k[0] in "df")) or "none"))
     if not cov["samples"]:
         cov["samples"] = [dict(note="no sample recorded")]
     if cov["states"] == 0:
